@@ -107,6 +107,9 @@ var orders = []opt{
 	{"v_u", "v, u"},
 	{"alias_c_desc", "c DESC"},
 	{"min_v", "MIN(v)"},
+	{"k_id_desc", "k, {id} DESC"},
+	{"u_k_desc_id", "u, k DESC, {id}"},
+	{"k_desc_v_desc_id", "k DESC, v DESC, {id}"},
 }
 
 var limits = []opt{
